@@ -4,7 +4,10 @@ From Coq Require Import List Bool NArith ZArith.
 From PV Require Import Base.Str Base.Value Base.Wire Run.RState.
 From PV Require Import Run.R01.
 From PV Require Import Run.R08.
+From PV Require Import Run.R11.
+From PV Require Import Run.R12.
 From PV Require Import Run.R16.
+From PV Require Import Run.R17.
 Import ListNotations.
 Local Open Scope N_scope.
 
@@ -14,7 +17,10 @@ Definition dispatch (st : rstate) (op : N) (arg : value) : option (rstate * valu
   match op / 100 with
   | 1 => run01 st op arg
   | 8 => run08 st op arg
+  | 11 => run11 st op arg
+  | 12 => run12 st op arg
   | 16 => run16 st op arg
+  | 17 => run17 st op arg
   | _ => None
   end.
 
